@@ -199,6 +199,16 @@ PROPS["C20"] = {
     "assumptions": ["a group's map key equals the name stored in the attribute"],
 }
 
+PROPS["C15"] = {
+    "features": None,
+    "technique": "Lean 4 proof: potential-function argument on a cost-annotated run of the same drive loop (cost <= 8*consumed+8), erasure lemma (cost parser = parser); real allocations measured by a counting allocator on size-parameterised families",
+    "level_text": "Machine-checked theorems: `cost_model_is_the_parser` (the cost-annotated machine projects onto the parser: same results, rests and errors on every input) and `linear` (for every input – any nesting depth, set width, number of attributes, members or groups, well-formed or malformed – the modelled work (bytes allocated per token, pushes, items moved when a collection closes, name hashing/copying on insert) is at most 8 per byte consumed plus 8; amortised by a potential function over the collection stack). Tie to the code: ten input families with n doubling to 256 KiB (1 MiB thorough) are parsed by the real code under a counting global allocator: allocated bytes and allocator calls per input byte against absolute ceilings (400 B, 2.5 calls), growth factor <= 2.5 on doubling, wall-clock backstop; consumed bytes diffed against the model (up to 4096 elements).",
+    "level_note": "Partial: the cost semantics of Vec / HashMap / BTreeMap / the allocator are constants of the model; comparisons inside BTreeMap::insert (n log n) are outside it. The real allocator is observed, not proved.",
+    "design_ref": "DESIGN.md section 9, C15",
+    "trusted_base": CODEC_TB + ["Model/Cost.lean: per-token work of the implementation as counted by hand from parser.rs/reader.rs", "counting GlobalAlloc wrapper in the harness (harness/src/alloc.rs)"],
+    "assumptions": ["Vec::push, HashMap::insert are amortised O(1); moving a Vec is O(1)"],
+}
+
 ALL_IDS = ["C%02d" % i for i in range(1, 21)]
 
 NOT_YET = "not claimed in this revision: the theorem/correspondence pair for this property is not built yet (see DESIGN.md section 13)"
